@@ -114,17 +114,19 @@ class Extractor:
 
     # ------------------------------------------------------------------------------------
     def process(self, template_path):
+        out, fn_ranges = [], []
+        self._process_into(template_path, out, fn_ranges)
+        return "\n".join(out) + "\n", fn_ranges
+
+    def _process_into(self, template_path, out, fn_ranges):
         lines = open(template_path, encoding="utf-8").read().split("\n")
-        out = []
-        fn_ranges = []  # (first_line, last_line, safety_label, item_name)
         i = 0
         while i < len(lines):
             ln = lines[i]
             s = ln.strip()
             if s.startswith("//@INCLUDE"):
                 p = os.path.join(self.vfdir, s.split(None, 1)[1].strip())
-                inc = self.process_nested(p)
-                out.extend(inc)
+                self._process_into(p, out, fn_ranges)
                 i += 1
                 continue
             if s.startswith("//@EXTRACT"):
@@ -145,13 +147,6 @@ class Extractor:
                 continue
             out.append(ln)
             i += 1
-        return "\n".join(out) + "\n", fn_ranges
-
-    def process_nested(self, path):
-        text, ranges = self.process(path)
-        if ranges:
-            raise UnitError("EXTRACT with SAFETY inside INCLUDE not supported: %s" % path)
-        return text.rstrip("\n").split("\n")
 
     # ------------------------------------------------------------------------------------
     def parse_block(self, block):
@@ -545,8 +540,7 @@ class Extractor:
 
     def _eval_flag(self, expr, vals, name):
         s = " ".join(expr)
-        s = re.sub(r"Self :: (\w+) \. bits \( \)", lambda m: str(vals[m.group(1)]), s)
-        s = re.sub(r"Self :: (\w+) \. bits", lambda m: str(vals[m.group(1)]), s)
+        s = re.sub(r"Self : : (\w+) \. bits \( \)", lambda m: str(vals[m.group(1)]), s)
         s = re.sub(r"(\d[\d_]*)(u32|u8|u16|u64|usize)?", lambda m: m.group(1).replace("_", ""), s)
         s = s.replace("< <", "<<")
         if not re.fullmatch(r"[0-9x\s|<()&~+a-fA-F]+", s):
